@@ -203,6 +203,12 @@ func registerMoreIntrinsics() {
 		return fr.x.strConst(a[0].(Struct)[0].(*Opaque).what)
 	}
 	in["runtime.Caller"] = inRuntimeCaller
+	in[zz+"Here"] = func(fr *frame, a []Value) Value {
+		x := fr.x
+		site := callerInstr(fr)
+		pos := x.eng.prog.Fset.Position(site.Pos())
+		return Tuple{x.strConst(pos.Filename), x.f.Const(64, uint64(pos.Line))}
+	}
 	in["runtime.Gosched"] = func(fr *frame, a []Value) Value { fr.x.yield(fr, "Gosched"); return nil }
 	// base64 (StdEncoding only: padded): the output region is filled with bytes that are
 	// uninterpreted functions of (input bytes, position) constrained to the base64 alphabet
